@@ -25,7 +25,8 @@ def gen_case(rng):
     # about a quarter of the circuits have AND/OR/XOR/NAND/NOR/NXOR gates with three or four operands
     nary = rng.random() < 0.25
     j, _ = gen.gen_circuit(rng, max_inputs=ni, min_inputs=ni, max_gates=rng.randint(3, 12), n_outputs=no,
-                           max_arity=4 if nary else 2, types=SUPPORTED)
+                           max_arity=4 if nary else 2, types=SUPPORTED,
+                           label_pool=rng.choice(['plain', 'plain', 'digits', 'digits', 'synth']))
     for g in j['gates']:
         if g[1] not in ('INPUT', 'NOT') and len(g[2]) > 2 and not (nary and g[1] in ('AND', 'OR', 'XOR', 'NAND', 'NOR', 'NXOR')):
             g[2] = g[2][:2]
@@ -186,6 +187,25 @@ def directed_cases():
                                                  G('L1', 'OR', 'p3', 'c'), G('r0', 'OR', 'L1', 'p2'), G('r1', 'AND', 'r0', 'p0'), G('r2', 'XOR', 'L1', 'r1'),
                                                  G('r3', 'NXOR', 'r2', 'r2')],
            'inputs': ['a', 'b', 'g', 'c', 'd'], 'outputs': ['p1', 'r3', 'L1'], 'blocks': []}
+    # leaves that carry the labels exact synthesis gives its own inputs ('0', '1', '2'), in every assignment of roles
+    for x, y, z in itertools.permutations(['0', '1', '2']):
+        dig = {'gates': I(x, y, z) + [G('3', 'OR', x, z), G('4', 'GEQ', z, y), G('5', 'AND', '3', '4')],
+               'inputs': [x, y, z], 'outputs': ['5'], 'blocks': []}
+        for basis in ('AIG', 'XAIG', 'FULL'):
+            out.append((realize(dig), basis, dflt, 'all', 0))
+    # the same with 2..5 digit-labelled leaves: an XOR written with three AIG gates over leaves '0' and '1', then a
+    # chain over the further leaves (the order in which a set of these labels is listed depends on the hash seed;
+    # with several sizes some cut is listed in another order than the sorted one under any seed)
+    for n in (2, 3, 4, 5):
+        ls = [str(i) for i in range(n)]
+        gates = I(*ls) + [G('p', 'NAND', '0', '1'), G('q', 'OR', '0', '1'), G('x', 'AND', 'p', 'q')]
+        last = 'x'
+        for i in range(2, n):
+            gates.append(G('c%d' % i, ['AND', 'OR', 'GT'][i % 3], last, ls[i]))
+            last = 'c%d' % i
+        dig = {'gates': gates, 'inputs': ls, 'outputs': [last], 'blocks': []}
+        for basis in ('XAIG', 'FULL'):
+            out.append((realize(dig), basis, dflt, 'all', 0))
     for basis in ('AIG', 'XAIG', 'FULL'):
         out.append((realize(cyc), basis, dict(dflt, cut_size=4), 'all', 0))
         out.append((realize(stale), basis, dflt, 'all', 0))
@@ -348,7 +368,7 @@ def has_dead_logic(cj):
     return any(g[1] != 'INPUT' and g[0] not in seen for g in cj['gates'])
 
 
-def check_case(ctx, cj, basis, params, cutmode, cutseed):
+def check_case(ctx, cj, basis, params, cutmode, cutseed, audit=True):
     inp = {'c': cj, 'basis': basis, 'params': params, 'cutmode': cutmode, 'cutseed': cutseed}
     want = tts(cj)
     r = run_minimize(cj, basis, params, cutmode, cutseed, validate=False)
@@ -379,10 +399,67 @@ def check_case(ctx, cj, basis, params, cutmode, cutseed):
         ctx.violation('min.size.dead_logic' if has_dead_logic(cj) else 'min.size', f'{nontrivial(cj)} non-trivial gates -> {nontrivial(res)}', input=inp)
         return
     ctx.count('improved' if nontrivial(res) < nontrivial(cj) else 'same_size')
-    audit_steps(ctx, cj, r, inp)
+    if audit:
+        audit_steps(ctx, cj, r, inp)
     rv = run_minimize(cj, basis, params, cutmode, cutseed, validate=True)
     if rv.get('err') == 'FailedValidationError':
         ctx.violation('min.validation', 'enable_validation=True reported a failed validation', input=inp)
+
+
+class _ChildCtx:
+    """collects what check_case reports, in a child interpreter"""
+    def __init__(self):
+        self.violations = []
+        self.counts = {}
+
+    def case(self, *a, **k):
+        pass
+
+    def sample(self, *a, **k):
+        pass
+
+    def count(self, k, n=1):
+        self.counts[k] = self.counts.get(k, 0) + n
+
+    def violation(self, key, what, input=None, **kw):
+        self.violations.append({'key': key, 'what': what, 'input': input})
+
+
+def child_main():
+    """run by `corpus_under_hash_seeds` in an interpreter started with another PYTHONHASHSEED: the corpus only"""
+    import sys
+    import common
+    common.setup_cirbo()
+    ctx = _ChildCtx()
+    for cj, basis, params, cutmode, cutseed in directed_cases():
+        check_case(ctx, cj, basis, params, cutmode, cutseed, audit=False)
+    sys.stdout.write('C04CHILD ' + json.dumps({'violations': ctx.violations, 'counts': ctx.counts}) + '\n')
+
+
+def corpus_under_hash_seeds(ctx, seeds):
+    """the property quantifies over hash-seed dependent set iteration orders; string hashing is fixed when an
+    interpreter starts, so the corpus is also run in child interpreters started with other seeds"""
+    import os
+    import subprocess
+    import sys
+    here = os.path.dirname(os.path.dirname(os.path.abspath(__file__)))
+    for hs in seeds:
+        env = dict(os.environ, PYTHONHASHSEED=str(hs))
+        try:
+            out = subprocess.run([sys.executable, '-c', 'import sys; sys.path.insert(0, %r); from props import c04; c04.child_main()' % here],
+                                 env=env, stdout=subprocess.PIPE, stderr=subprocess.PIPE, text=True, timeout=900)
+        except subprocess.TimeoutExpired:
+            ctx.count('hash_seed_child_timeout')
+            continue
+        line = [l for l in out.stdout.split('\n') if l.startswith('C04CHILD ')]
+        if not line:
+            ctx.count('hash_seed_child_failed')
+            continue
+        res = json.loads(line[-1][len('C04CHILD '):])
+        ctx.count('corpus_under_hash_seed=%d' % hs, sum(v for k, v in res['counts'].items() if k in ('improved', 'same_size')))
+        for v in res['violations']:
+            inp = dict(v['input'] or {}, PYTHONHASHSEED=hs)
+            ctx.violation(v['key'], v['what'] + f' (PYTHONHASHSEED={hs})', input=inp)
 
 
 def correspondence(ctx):
@@ -397,6 +474,8 @@ def search(ctx):
         ctx.case(json.dumps(['directed', cj['gates'], cj['outputs'], basis, cutmode]))
         ctx.count('directed_corpus')
         check_case(ctx, cj, basis, params, cutmode, cutseed)
+    base = int(__import__('os').environ.get('PYTHONHASHSEED', '0') or 0)
+    corpus_under_hash_seeds(ctx, [base + 1, base + 2, base + 3] if ctx.tier == 'quick' else [base + i for i in range(1, 9)])
     for k in range(ctx.scale(60, 1500)):
         cj, basis, params, cutmode, cutseed = gen_leaf_reads_cone(rng, k)
         ctx.case(json.dumps(['leafcone', cj['gates'], cj['inputs'], cj['outputs'], basis, params, cutmode, cutseed]))
